@@ -36,7 +36,7 @@ UNITS = {
             src="fontbe/src/glyphs.rs", functions=["fontbe::glyphs::create_component_ref_gid"],
             klass="complete", domain="all finite f64 offsets e,f; any u16 glyph id; loop-free",
             pre="e, f finite; 2x2 = identity",
-            post="Ok((c,_)) => |c.x - e| <= 0.5 and |c.y - f| <= 0.5 and c.glyph == gid (a stored offset is the rounded source value, never a clamp)",
+            post="Ok((c,_)) => c.x == floor(e + 0.5) and c.y == floor(f + 0.5) exactly, and c.glyph == gid (a stored offset is the OT-rounded source value, never a clamp, also at rounding ties)",
             kind="obligation", tiers=["quick", "thorough"], timeout_s=120,
         ),
         dict(
@@ -172,10 +172,11 @@ UNITS["C17"] = [
 ]
 
 # ------------------------------------------------------------------ C13
-_LEXFNS = ["nth", "bump", "next_token", "whitespace", "comment", "string", "hyphen_or_minus", "number", "eat_octal_digits", "eat_hex_digits",
+_LEXFNS = ["new", "nth", "bump", "next_token", "whitespace", "comment", "string", "hyphen_or_minus", "number", "eat_octal_digits", "eat_hex_digits",
            "eat_decimal_digits", "cid", "glyph_class_name", "eat_ident", "ident", "path", "is_special", "is_ascii_whitespace"]
 _LEXPOST = {
-    "next_token": "T1 final.pos == old.pos + r.len <= |input| (lossless tiling); T2 old.pos < |input| => r.len >= 1 (progress); T3 r.kind == Eof <=> old.pos == |input|; input unchanged; all index/arith obligations",
+    "next_token": "T1 final.pos == old.pos + r.len <= |input| (lossless tiling); T2 old.pos < |input| => r.len >= 1 (progress); T3 r.kind == Eof <=> old.pos == |input|; T4 utf8_shape(input) and old.pos on a char boundary => final.pos on a char boundary; input unchanged; all index/arith obligations",
+    "new": "the lexer starts at byte 0 of exactly the text it was given: pos == 0, input unchanged, mode flags clear",
     "nth": "returns input[pos+index] or 0 past the end; no overflow",
     "bump": "advances by exactly one byte iff pos < |input| and returns it; frame",
 }
@@ -197,8 +198,16 @@ UNITS["C13"] = [
        "every valid UTF-8 input of exactly 3 bytes, first two tokens", "valid UTF-8, |input| == 3", "T1, T2, T3 on the first two next_token calls", tiers=("thorough",), timeout_s=3600),
     _k("c13_from_keyword_never_eof", "fea-rs", "fea-rs/src/parse/lexer/lexeme.rs", ["fea_rs::parse::lexer::lexeme::Kind::from_keyword"], "bounded",
        "every byte word of length <= 26 (longest keyword has 25 bytes)", "|word| <= 26", "result is never Some(Eof/Tombstone/Ident/Whitespace); empty word => None  (the contract the Verus proof assumes for this external_body function)", timeout_s=900),
-    _k("c13_lexer_cover", "fea-rs", "fea-rs/src/parse/lexer.rs", [], "complete", "", "", "identifier, non-ASCII byte, number reachable", kind="cover", timeout_s=900),
+    _k("c13_lexer_cover", "fea-rs", "fea-rs/src/parse/lexer.rs", [], "complete", "", "", "identifier, non-ASCII character, number reachable in the companion's input generator", kind="cover", timeout_s=1800, on_demand=True),
+    _k("c13_parser_forwards_every_lexeme_inputs_up_to_2_bytes", "fea-rs", "fea-rs/src/token_tree.rs",
+       ["fea_rs::parse::parser::Parser::{new,advance,eat_raw,eat_trivia,do_bump,at_eof}", "fea_rs::token_tree::AstSink::{token,start_node,finish_node,finish}"], "bounded",
+       "every valid UTF-8 input of <= 2 bytes; the parser is driven by eat_raw until Eof (no grammar)", "valid UTF-8, |input| <= 2",
+       "the sink has consumed exactly |input| bytes (every lexeme, trivia included, forwarded exactly once); token texts of the tree add up to |input|; at most one eat_raw per byte",
+       tiers=("thorough",), timeout_s=3600),
 ]
+
+# C19 cross-listing: MetricsBuilder::update's i16 clamps / overflow freedom are also a C19 obligation
+UNITS["C19"].insert(-1, dict(next(u for u in UNITS["C17"] if u["obligation"] == "c17_metrics_update_contract")))
 
 # Assumptions common to every Kani unit (reported in every evidence file)
 KANI_TRUSTED = [
